@@ -463,6 +463,18 @@ def _enum_self_linked(tier):
             yield {'spec': None, 'ops': PREFIX_SELF + [ALPHABET[i] for i in seq]}
 
 
+PREFIX_LINKED = PREFIX + [['add_assoc', 0, [0, 1], [0]], ['add_assoc', 1, [0], [1]], ['add_assoc', 1, [1], [0]]]
+
+
+def _enum_linked(tier):
+    """the same alphabet, starting from two hosts that share one side of a multi-member association (listed first
+    by both) and are also linked to each other by two further associations: removing either host has to walk a
+    list of associations of which the first survives the removal"""
+    for ln in range(1, 3 if tier == 'quick' else 4):
+        for seq in itertools.product(range(len(ALPHABET)), repeat=ln):
+            yield {'spec': None, 'ops': PREFIX_LINKED + [ALPHABET[i] for i in seq]}
+
+
 def _op_strategy():
     i = st.integers
     small = st.integers(0, 5)
@@ -513,6 +525,8 @@ CLAUSES = [
            space='all operation sequences of length <=2 (quick) / <=3 (thorough) over the same alphabet, applied to a model that already holds two hosts and a data asset'),
     Clause('short-histories-from-self-linked-model', check_case, kind='exhaustive', enumerate=_enum_self_linked,
            space='all operation sequences of length <=2 (quick) / <=3 (thorough) over the same alphabet, applied to two hosts that are each linked to themselves'),
+    Clause('short-histories-from-linked-model', check_case, kind='exhaustive', enumerate=_enum_linked,
+           space='all operation sequences of length <=2 (quick) / <=3 (thorough) over the same alphabet, applied to two hosts sharing a side of a multi-member association and linked to each other twice more'),
     Clause('tiny-language-histories', check_case, kind='random', strategy=lambda: tiny_histories(25),
            budget={'quick': 3000, 'thorough': 90000}),
     Clause('generated-language-histories', check_case, kind='random', strategy=lambda: lang_histories(25),
